@@ -115,7 +115,7 @@ def run(ctx):
         "model — a collision of a candidate name with an ABSENT destination of the form safe<digits> (probability 2^-63 "
         "per attempt) is the one case excluded by hypothesis in full_dest_old_or_new and shown by an example",
     ]
-    ctx.lean(props=["Props.C14", "Props.C14Hist", "Props.C14Race", "Props.C14RaceHist", "Props.C14Kinds"], drivers=["drv_c14"])
+    ctx.lean(props=["Props.C14", "Props.C14Hist", "Props.C14Race", "Props.C14RaceHist", "Props.C14Kinds", "Props.C14KindsWF"], drivers=["drv_c14"])
     if not ctx.harness("./cmd/c14"):
         return
     _calibrate(ctx)
